@@ -242,13 +242,15 @@ func c15StoreArgs(r *Report, hp *ssa.Function) {
 		r.Lost(key, rule, "handler not found")
 		return
 	}
-	eq := Calls(hp, Fn("crypto/hash", "SHA256Hash", "Equals"))
-	wr := Calls(hp, Fn("network/dag", "State", "WritePayload"))
+	eq := r.P.CallsNear(hp, Fn("crypto/hash", "SHA256Hash", "Equals"))
+	wr := r.P.CallsNear(hp, Fn("network/dag", "State", "WritePayload"))
 	r.Sites += len(eq) + len(wr)
 	if len(eq) != 1 || len(wr) != 1 {
 		r.Lost(key, rule, "Equals/WritePayload calls not found")
 		return
 	}
+	defer r.P.BindHelperParams(hp, eq[0])()
+	defer r.P.BindHelperParams(hp, wr[0])()
 	a, b := AccessPath(eq[0].Common().Args[0], 0), AccessPath(eq[0].Common().Args[1], 0)
 	both := a + " | " + b
 	data := AccessPath(CallArg(wr[0].Common(), 3), 0)
